@@ -34,7 +34,7 @@ ObsClauses(w, c, oArg, SArg, orbitsArg) ==
   LET o == oArg
       S == SArg
       orbits == orbitsArg
-      st == [m \in DOMAIN o.states |-> PSOf(o.states[m])]
+      st == Force([m \in DOMAIN o.states |-> PSOf(o.states[m])])
       pos(p) == IF p \in S THEN CHOOSE m \in DOMAIN st : st[m] = p ELSE 0      \* 0 = "None"
       wellformed == /\ \A m \in DOMAIN st : IsPS(w, c, st[m])
                     /\ o.nstates = Len(st) /\ o.nstars = Len(o.stars) /\ Len(o.index) = Len(st)
@@ -75,21 +75,22 @@ Eval(kk, cArg) ==
       cc == c.c
       G == OpsRT(w, 2)
       J == UNION {SeqSet(c.jn[m]) : m \in DOMAIN c.jn}
-      T == [n \in 0..c.maxn |-> Reach(J, n)]
-      den == [d \in DOMAIN c.descs |-> DenT(w, cc, T, c.descs[d])]
-      sets == [m \in DOMAIN c.sets |-> SeqSet(c.sets[m])]
-      orb == [m \in DOMAIN c.sets |-> OrbitPartition(w, cc, G, sets[m])]
+      T == Force([n \in 0..c.maxn |-> Reach(J, n)])
+      den == Force([d \in DOMAIN c.descs |-> DenT(w, cc, T, c.descs[d])])
+      sets == Force([m \in DOMAIN c.sets |-> SeqSet(c.sets[m])])
+      orb == Force([m \in DOMAIN c.sets |-> OrbitPartition(w, cc, G, sets[m])])
       \* descriptors whose denotation is the m-th observed set
-      match == [m \in DOMAIN c.sets |-> {d \in DOMAIN c.descs : sets[m] = den[d]}]
+      match == Force([m \in DOMAIN c.sets |-> {d \in DOMAIN c.descs : sets[m] = den[d]}])
       \* descriptors that the oi-th projection denotes (range attribute and state set)
-      ok == [oi \in DOMAIN c.obs |-> {d \in match[c.obs[oi].set] : c.obs[oi].n = c.descs[d].n}]
+      ok == Force([oi \in DOMAIN c.obs |-> {d \in match[c.obs[oi].set] : c.obs[oi].n = c.descs[d].n}])
       edges == c.edges
       model == <<
         <<"jump_network_symmetric", NetworkOK(w, cc, G, J)>>,
         <<"reach_definitions_agree", \A n \in 0..c.maxn : T[n] = ReachAvoid(J, n)>>,
         <<"sum_of_reach_sets_is_reach_set",
             \A n1 \in 0..c.maxn : \A n2 \in 0..(c.maxn - n1) : AddSets(T[n1], T[n2]) = T[n1 + n2]>>,
-        <<"expected_sets_closed", \A d \in DOMAIN c.descs : Closed(w, cc, G, den[d])>> >>
+        \* (implied by the first clause; costs |set| x |G| images per descriptor, so only on request)
+        <<"expected_sets_closed", c.deep => \A d \in DOMAIN c.descs : Closed(w, cc, G, den[d])>> >>
   IN
   /\ \A j \in DOMAIN model : model[j][2] \/ PrintT(<<"FAIL", kk, <<"model", model[j][1]>>>>)
   /\ \A oi \in DOMAIN c.obs :
@@ -97,12 +98,14 @@ Eval(kk, cArg) ==
          \A j \in DOMAIN cl : cl[j][2] \/ PrintT(<<"FAIL", kk, <<"obs", oi, cl[j][1]>>>>)
   /\ \A e \in DOMAIN edges :
        LET ed == edges[e] IN
-         /\ (ed.must = ed.raised) \/ PrintT(<<"FAIL", kk, <<"edge", e, 0, IF ed.must THEN "must_raise" ELSE "must_not_raise">>>>)
-         /\ \/ \E a \in DOMAIN ed.cands : \A s \in DOMAIN ed.slots : ed.cands[a][s] \in ok[ed.slots[s]]
-            \/ \A s \in DOMAIN ed.slots :
-                  LET oi == ed.slots[s]  d == ed.cands[1][s]
-                      why == Mismatch(c.obs[oi], sets[c.obs[oi].set], c.descs[d], den[d])
-                  IN why = "ok" \/ PrintT(<<"FAIL", kk, <<"edge", e, s, why>>>>)
+         \* a call that raises although it must not (or the reverse) leaves no defined state to compare
+         IF ed.must # ed.raised
+         THEN PrintT(<<"FAIL", kk, <<"edge", e, 0, IF ed.must THEN "must_raise" ELSE "must_not_raise">>>>)
+         ELSE \/ \E a \in DOMAIN ed.cands : \A s \in DOMAIN ed.slots : ed.cands[a][s] \in ok[ed.slots[s]]
+              \/ \A s \in DOMAIN ed.slots :
+                    LET oi == ed.slots[s]  d == ed.cands[1][s]
+                        why == Mismatch(c.obs[oi], sets[c.obs[oi].set], c.descs[d], den[d])
+                    IN why = "ok" \/ PrintT(<<"FAIL", kk, <<"edge", e, s, why>>>>)
   /\ PrintT(<<"INFO", kk, "group_order", Cardinality(G)>>)
   /\ PrintT(<<"INFO", kk, "max_star", FoldLeft(LAMBDA acc, m : FoldSet(LAMBDA O, a2 : IF Cardinality(O) > a2 THEN Cardinality(O) ELSE a2, acc, orb[m]),
                                                 0, [m \in DOMAIN c.sets |-> m])>>)
